@@ -120,3 +120,10 @@ for _k, _v in _EXTRA.items():
     CLAIMED[_k]["text"] = CLAIMED[_k]["text"] + _v
 CLAIMED["C07"]["technique"] = "loop-bound analysis + call-graph reachability (R-BOUND/R-SPAN/R-HISTORY) + symbolic summary of the resume scan with polyhedra entailment"
 CLAIMED["C11"]["technique"] = "value numbering of the post-state + typestate/ordering rules + symbolic summary of the resume scan with polyhedra entailment (result == m)"
+
+# ---- common preamble about the front end (after the refactoring rounds)
+_FRONT = (" Front end: every module is parsed, canonicalised (hexlint/normalize.py) and helpers that are not part of the pinned decomposition are inlined "
+          "(hexlint/inline.py) before the rules run, so behaviour-preserving restructurings (extract method, guard clauses, loops vs all/any/next/sum, renamed locals, "
+          "positional vs keyword arguments) present the same program to the rules; a shape the analysis cannot follow is reported as ANALYSIS-ERROR (exit 2), never as a violation.")
+for _k in CLAIMED:
+    CLAIMED[_k]["note"] = CLAIMED[_k]["note"] + _FRONT
